@@ -16,7 +16,7 @@ import (
 var c08LongDigits = regexp.MustCompile(`[0-9]{19}`)
 
 func c08Lists(lvl int) []string {
-	I := []string{"0", "1", "2", "3", "10", "65535", "65536", "65537", "131072", "4294967296", "4294967297", "99999999999999999", "a", "alpha", "beta", "rc", "A", "Alpha", "a-b", "1-2", "2-3", "-5", "-12", "-", "x-", "0a", "00a", "1a", "x", "rc9", "rc10", "alpha-2", "alpha-10", "9007199254740992", "9007199254740993"}
+	I := []string{"0", "1", "2", "3", "10", "dev", "v1", "65535", "65536", "65537", "131072", "4294967296", "4294967297", "99999999999999999", "a", "alpha", "beta", "rc", "A", "Alpha", "a-b", "1-2", "2-3", "-5", "-12", "-", "x-", "0a", "00a", "1a", "x", "rc9", "rc10", "alpha-2", "alpha-10", "9007199254740992", "9007199254740993"}
 	var out []string
 	out = append(out, "")
 	for _, a := range I {
